@@ -69,6 +69,30 @@ class NodeSession:
 
 
 # ---------------------------------------------------------------- tiny protobuf encoder (ConfigValueDO)
+def applied_index_on_disk(d):
+    """the last-applied index as the next start will read it (first 8 bytes of the raft index file, big endian)"""
+    try:
+        with open(os.path.join(d, "index"), "rb") as f:
+            b = f.read(8)
+        return int.from_bytes(b, "big") if len(b) == 8 else None
+    except OSError:
+        return None
+
+
+def settle_on_disk(sess, d, bound_s=10.0):
+    """quiescence includes the lazily written last-applied index: it is written by its own actor thread through a
+    blocking-pool write after the apply was acknowledged; on a loaded machine that can take longer than any fixed sleep.
+    Returns True once the file shows the applied index the raft core reports."""
+    import time
+    t0 = time.time()
+    while time.time() - t0 < bound_s:
+        m = sess.call("metrics")
+        if m.get("ok") is not False and m.get("last_applied") is not None and applied_index_on_disk(d) == m.get("last_applied") == m.get("last_log_index"):
+            return True
+        time.sleep(0.05)
+    return False
+
+
 def _vi(n):
     out = bytearray()
     while n > 0x7F:
